@@ -150,6 +150,18 @@ REGISTRY = {
         "assumptions": ["the documented layout is the one written down in coq/Model/Codec.v and MetaJournal.v header comments (README, constants.rs, metadata.rs, allocation_journal.rs)",
                         "golden files were produced by the pinned tree with this harness' genimg workload"],
     },
+    "C16": {
+        "title": "the read cache is transparent and its accounting exact",
+        "teq": [
+            {"engine": "cache", "quick": {"n": 3}, "thorough": {"tier": "thorough"}, "oracle": True, "mismatch_is_failure": True, "timeout": 3400,
+             "nontrivial": lambda case, res: "hit:" in res and "ev=0 " not in res.split(" | ")[-1] + " ",
+             "distinct_key": lambda case, res: res,
+             "what": "the public ClockCache API (insert / get / remove / evict_entries / clear / adjust_watermarks / stats) under 1-4 MB watermarks with 40-220 KB entries vs Model.Cache (buckets by murmur3, CLOCK hand, MAX_SCANS, large-value rule): every hit/miss with the value, memory_usage, eviction count and watermarks after every call; oracle: no hit after an explicit remove, usage at or below the low watermark after evict_entries, zero after clear"},
+            seq({"only": "persistent", "n": 2, "ops": 80, "seedoff": 16}, {"only": "persistent", "seedoff": 16}),
+        ],
+        "nontrivial_rule": "cache: a case is one operation sequence on a fresh cache, non-trivial when it had at least one hit and at least one eviction; seq: as C01 restricted to the 12 persistent configurations (cache on and off), both must equal the same reference map",
+        "assumptions": ["size_of::<CacheEntry>() is measured through the public accounting of a one-entry cache", "the generation-tagged internal API (get_for_record, insert_for_record, remove_for_record, record_entry) is exercised only through the store"],
+    },
     "C17": {
         "title": "opening arbitrary or damaged files fails cleanly",
         "teq": [
